@@ -310,6 +310,11 @@ func (c *oCache) TryRemove(id string) (ok bool, err error) {
 		c.mu.Unlock()
 		return false, ErrNotExists
 	}
+	if !e.isActive() {
+		// still loading (e.value is not set yet) or already being closed: nothing to try-close
+		c.mu.Unlock()
+		return false, nil
+	}
 
 	c.mu.Unlock()
 
